@@ -1,7 +1,7 @@
 (* Entry points evaluated by the extracted driver: one harness case -> one report line. *)
 From Coq Require Import Ascii String.
 From Coq Require Import List NArith ZArith QArith Bool Arith.
-From V Require Import Str Num Tok Tables Items Read Decode Bytes WellFormed Doc Case Paginate Pipeline Document TextSpec Checks Validate Assemble StrWidth Ctx.
+From V Require Import Str Num Tok Tables Items Read Decode Bytes WellFormed Doc Case Paginate Pipeline Document TextSpec Checks Validate Assemble StrWidth Ctx Export.
 Import ListNotations.
 Local Open Scope string_scope.
 Local Open Scope list_scope.
@@ -399,10 +399,43 @@ Definition run_c15 (id : str) (pals : list (bool * list str)) (evs : list (Z * (
   let obs := observe nat pal [] sched in
   line [kv "id" id; kv "obs" (join [59%N] (map (fun p => nat_str (fst p) ++ [58%N] ++ ctx_str (snd p)) obs))].
 
+(* C18: ([c18] [id] (fmt target stem files dirs code beh resdir fault tmp) (query paths)) -> outcome and final file system *)
+Definition fs_of (files : list (path * str)) (dirs : list path) : fsys :=
+  {| file := fun q => match find (fun e => path_eqb (fst e) q) files with Some e => Some (snd e) | None => None end;
+     isdir := fun q => any_b (path_eqb q) dirs |}.
+
+Definition run_c18 (id : str) (ins : list sexp) (queries : sexp) : str :=
+  match ins with
+  | [f; tg; st; fl; dl; cd; bh; rd; ft; tm] =>
+    match dZ f, dList dStr tg, dStr st, dList (dPair (dList dStr) dStr) fl, dList (dList dStr) dl,
+          dPair dBool dStr cd, dZ bh, dBool rd, dZ ft, dList dStr tm, dList (dList dStr) queries with
+    | Some f, Some tg, Some st, Some fl, Some dl, Some cd, Some bh, Some rd, Some ft, Some tm, Some qs =>
+      let c := {| sc_fmt := match f with 0%Z => FRtf | 1%Z => FDocx | 2%Z => FHtml | _ => FPdf end;
+                  sc_target := tg; sc_stem := st;
+                  sc_code := if fst cd then Ok (snd cd) else Err ValueErr;
+                  sc_beh := match bh with 0%Z => BOk | 1%Z => BFailBefore | 2%Z => BFailAfter | 3%Z => BNoOutput
+                                        | 4%Z => BRetList | 5%Z => BRetNone | 6%Z => BRetStr | _ => BRetMissing end;
+                  sc_resdir := rd;
+                  sc_fault := match ft with 0%Z => FNone | 1%Z => FCtor | 2%Z => FEncode | _ => FConvert end;
+                  sc_conv := s2l "CONV"; sc_resfile := s2l "RES";
+                  sc_t1 := tm ++ [s2l "t1"]; sc_t2 := tm ++ [s2l "t2"]; sc_fixed := true |} in
+      let '(s', o) := export c (fs_of fl dl) in
+      let show q := match file s' q with
+                    | Some x => s2l "F:" ++ x
+                    | None => if isdir s' q then s2l "D" else s2l "-"
+                    end in
+      line [kv "id" id; kv "out" (match o with None => s2l "ok" | Some e => err_name e end);
+            kv "fs" (join [59%N] (map show qs))]
+    | _, _, _, _, _, _, _, _, _, _, _ => line [kv "id" id; kv "bad" (s2l "c18 fields")]
+    end
+  | _ => line [kv "id" id; kv "bad" (s2l "c18 arity")]
+  end.
+
 Definition run_case' (e : sexp) : str :=
   match e with
   | SList [SStr mode; SStr id; SList ins; out] =>
-    if str_eqb mode (s2l "c14") then
+    if str_eqb mode (s2l "c18") then run_c18 id ins out
+    else if str_eqb mode (s2l "c14") then
       match dList (dPair dBool (dList dStr)) (SList ins), dList (dPair dZ dNat) out with
       | Some pals, Some ops => run_c14 id pals ops
       | _, _ => line [kv "id" id; kv "bad" (s2l "c14")]
